@@ -210,6 +210,29 @@ func c14Run(w *W) {
 			if w.Choose(simrt.SProg, 4) == 0 && len(ep.Plan) < 3 {
 				ep.Plan = append(ep.Plan, "ok")
 			}
+			if w.Choose(simrt.SProg, 3) == 0 {
+				// the application sets a reconnect option again, to the value it
+				// already has, on the running dialer or on its socket (which
+				// hands it down): nothing about the schedule may change - in
+				// particular a maximum of zero still means "no back-off growth",
+				// not "no delay"
+				name, v := mangos.OptionMaxReconnectTime, M
+				if w.Choose(simrt.SProg, 2) == 0 {
+					name, v = mangos.OptionReconnectTime, r
+				}
+				var err error
+				if w.Choose(simrt.SProg, 2) == 0 {
+					err = d.SetOption(name, v)
+				} else {
+					err = b.s.SetOption(name, v)
+				}
+				w.Op("%s set again to %v while the dialer runs -> %v", name, v, errName(err))
+				if err != nil {
+					w.Failf("C19/option-refused", "%s: SetOption(%s, %v) on a started dialer / its socket: %v", kind, name, v, err)
+					return
+				}
+				w.Probe("reconnect-option-set-again-while-running")
+			}
 		}
 		w.Settle()
 		b.checkGaps(w, false)
